@@ -78,6 +78,40 @@ def cell(f):
         return "x" if tok.startswith("err ") else "X!" + tok.split()[-1]
 
 
+@functools.lru_cache(maxsize=8)
+def _chunk_twin_cached(key, which):
+    from inscripta.biocantor.io.parser import seq_chunk_to_parent
+    tk = Toks(key.split())
+    plen, st, exons, cds = parse_tx_tokens(tk)
+    if plen is None:
+        return None
+    blocks = cds if cds is not None else exons
+    lo = min(s for s, _ in blocks)
+    hi = max(e for _, e in blocks)
+    if hi - lo < 3:
+        return None
+    ws, we = [(lo + 1, hi), (lo, hi - 1), (lo + 1, hi - 1), (max(0, lo - 1), min(plen, hi + 1))][which]
+    if not any(max(s, ws) < min(e, we) for s, e in blocks):      # keep at least one CDS (or exon) base
+        return None
+    seq = ("ACGT" * (plen // 4 + 1))[:plen]
+    try:
+        parent = seq_chunk_to_parent(seq[ws:we], "chr1", ws, we)
+        kw = {}
+        if cds is not None:
+            cs, ce = [s for s, _ in cds], [e for _, e in cds]
+            frames = CDSInterval.construct_frames_from_location(CompoundInterval(cs, ce, st), CDSFrame.ZERO)
+            kw = dict(cds_starts=cs, cds_ends=ce, cds_frames=frames)
+        return TranscriptInterval([s for s, _ in exons], [e for _, e in exons], st,
+                                  parent_or_seq_chunk_parent=parent, **kw)
+    except Exception:  # noqa: the chunk twin cannot be built for this layout (its own constructor's business)
+        return None
+
+
+def _chunk_twin(key, line):
+    import zlib
+    return _chunk_twin_cached(key, zlib.crc32(line.encode()) % 4)
+
+
 def impl_tx_op(line):
     toks = line.split()
     tk = Toks(toks)
@@ -88,10 +122,30 @@ def impl_tx_op(line):
     tx, err = _build_cached(key)
     if err is not None:
         return err
+    tx_box = [tx]
+
+    class _TxProxy:
+        def __getattr__(self, name):
+            return getattr(tx_box[0], name)
+
+    tx = _TxProxy()
 
     def point(fn):
         lo, hi = tk.int(), tk.int()
-        return "ok " + " ".join(cell(lambda p=p: fn(p)) for p in range(lo, hi + 1))
+        ans = "ok " + " ".join(cell(lambda p=p: fn(p)) for p in range(lo, hi + 1))
+        # chunk twin: the same transcript built on a sequence chunk that cuts it must give the SAME
+        # chromosome-level answers (these conversion methods are documented in chromosome coordinates)
+        twin = _chunk_twin(key, line)
+        if twin is not None:
+            saved = tx_box[0]
+            tx_box[0] = twin
+            try:
+                ans2 = "ok " + " ".join(cell(lambda p=p: fn(p)) for p in range(lo, hi + 1))
+            finally:
+                tx_box[0] = saved
+            if ans2 != ans:
+                return "err! ChunkTwinMismatch"
+        return ans
 
     def go():
         if op in VEC_OPS:
